@@ -43,10 +43,12 @@ def register(K):
         return V("seq", eng.rules.REV(eng.as_seq(x, st)))
 
     @K.spec("fresh_list")
-    def fresh_list(eng, st, x):
-        """a list object handed over by the caller that nothing else refers to (it was built by the caller for this call)"""
-        from pyvc.state import ALLOC0
-        return vbool(z3.BoolVal(True))
+    def fresh_list(eng, st, x, interp):
+        """a list handed over by the caller that is neither of the interpreter's backing lists (it was built by the caller for this call)"""
+        s_ = eng.spec_value("i.stack._stack", st, {"i": interp})
+        b_ = eng.spec_value("i.module_body._list", st, {"i": interp})
+        r = eng.as_ref(x, st)
+        return vbool(z3.And(r != s_.t, r != b_.t))
 
     @K.spec("index_out_of_range")
     def oor(eng, st, index, n):
